@@ -30,6 +30,12 @@
     `write_resumed_exact_any_chunk` — the same four for EVERY chunk size `write_length` = 1..255 the caller
                                 may assign (the harness assigns it on the real object); `write_chunk_sizes`,
                                 `write_length_zero_sends_nothing`.
+  * `write_raises_at_first_count_mismatch` — for EVERY peer and chunk size: if acknowledgement k is the first
+                                that names another count than its chunk carried, the write raises the library's
+                                `Exception` after exactly k + 1 requests (trace = the first k + 1 offered
+                                exchanges), whatever the later acknowledgements would have been (two deviations
+                                that cancel in a sum do not pass); `write_stops_at_first_bad_answer` (any
+                                non-exact answer), `write_all_acked_returns` (converse), `offered_write_requests`.
   * `faultless_plan_is_reference_device` — the fault-injecting device of the history runs is the reference
                                 device while its plan is empty.
   * `multirecord_as_shipped_misaddresses` — COUNTER-EXAMPLE for the pinned source:
@@ -270,6 +276,117 @@ example : (writeFruData (withWriteLen 5) respondF ⟨⟨⟨[(3, List.replicate 6
     (List.replicate 40 9) 5 3).out = .pyError "Exception" ∧
     ((writeFruData (withWriteLen 5) respondF ⟨⟨⟨[(3, List.replicate 60 0)], 32, 0xCA, false, 255⟩, 0, [(1, .ack 6)]⟩, []⟩
     (List.replicate 40 9) 5 3).w.dev.dev.get 3) = some (splice (List.replicate 60 0) 5 (List.replicate 10 9)) := by decide
+
+/-! ### the error comes AT the first deviating acknowledgement, whatever the later ones would have been
+
+`write_count_mismatch_raises(_any_chunk)` say: a write that returns normally saw only exact acknowledgements.
+That leaves open WHEN a deviation is reported (a library that sums the acknowledged counts and compares the
+total after the last chunk also raises on every single deviation - and lets two deviations that cancel, 15 and
+17 for two 16-byte chunks, pass).  The full statement: for ANY peer and any chunk size, if acknowledgement `k`
+is the first that names another count than its request carried, the write performs exactly the requests
+`0..k` and raises the library's `Exception`; nothing is assumed about what the peer would answer afterwards. -/
+
+/-- the transcript of the peer if EVERY chunk request of `write_fru_data(data, off, id)` with
+`write_length = wl` were put to it in order (`Lemmas/XferFru.offered`: defined from the peer and the chunking,
+not from the library's loop) -/
+def offeredWrite {σ} (wl : Nat) (send : Send σ) (dev : σ) (data : List Nat) (off id : Nat) : List Xchg :=
+  offered send dev id off (chunks wl data)
+
+/-- its requests are the chunks of `data` (`write_chunk_sizes`) at consecutive offsets, one per chunk -/
+theorem offered_write_requests {σ} (wl : Nat) (send : Send σ) (dev : σ) (data : List Nat) (off id : Nat) :
+    (offeredWrite wl send dev data off id).map (·.req) = chunkReqs id off (chunks wl data) ∧
+    (offeredWrite wl send dev data off id).length = (chunks wl data).length :=
+  ⟨offered_reqs send id _ dev off, offered_length send id _ dev off⟩
+
+/-- ANY peer, ANY chunk size, ANY answer that is not "OK + exactly the bytes of this request" (another count,
+an error completion code, a malformed response): the write performs the offered exchanges up to and including
+the first such answer and no other, and ends with the corresponding error. -/
+theorem write_stops_at_first_bad_answer {σ} (wl : Nat) (h1 : 1 ≤ wl) (send : Send σ) (dev : σ)
+    (data : List Nat) (off id k : Nat) (x : Xchg)
+    (hk : (offeredWrite wl send dev data off id)[k]? = some x)
+    (hbefore : ∀ i, i < k → ∀ y, (offeredWrite wl send dev data off id)[i]? = some y → ExactAck y)
+    (hbad : ¬ ExactAck x) :
+    let r := writeFruData (withWriteLen wl) send ⟨dev, []⟩ data off id
+    r.out = stopOutcome x.rsp ∧ r.out ≠ .ok () ∧
+      r.w.trace = (offeredWrite wl send dev data off id).take (k + 1) ∧ r.w.trace.length = k + 1 := by
+  have hn : wl ≠ 0 := by omega
+  have key := writeChunks_stops_at_first_bad send id (chunks wl data) ⟨dev, []⟩ off k x hk hbefore hbad
+  have hlen : k < (offeredWrite wl send dev data off id).length := by
+    rcases Nat.lt_or_ge k (offeredWrite wl send dev data off id).length with h | h
+    · exact h
+    · rw [List.getElem?_eq_none h] at hk; cases hk
+  simp only [writeFruData, withWriteLen, hn, if_false]
+  refine ⟨key.1, ?_, by simpa [offeredWrite] using key.2, ?_⟩
+  · rw [key.1]; unfold stopOutcome
+    cases hdec : decodeWriteRsp x.rsp <;> simp [castErr]
+  · rw [key.2]; simp only [List.nil_append, List.length_take]
+    simp only [offeredWrite] at hlen; omega
+
+/-- C10, the write clause at full strength: if the `k`-th acknowledgement is the first that differs from the
+length of its chunk (`n` instead of `|chunk k|`, shorter or longer), `write_fru_data` raises after exactly
+`k + 1` requests - the trace is the first `k + 1` offered exchanges.  No hypothesis speaks about the
+acknowledgements after `k`: deviations that would cancel in a sum do not help. -/
+theorem write_raises_at_first_count_mismatch {σ} (wl : Nat) (h1 : 1 ≤ wl) (send : Send σ) (dev : σ)
+    (data : List Nat) (off id k n : Nat) (x : Xchg)
+    (hk : (offeredWrite wl send dev data off id)[k]? = some x)
+    (hbefore : ∀ i, i < k → ∀ y, (offeredWrite wl send dev data off id)[i]? = some y → ExactAck y)
+    (hack : decodeWriteRsp x.rsp = .ok n) (hne : n ≠ x.req.payload.length - 3) :
+    let r := writeFruData (withWriteLen wl) send ⟨dev, []⟩ data off id
+    r.out = .pyError "Exception" ∧
+      r.w.trace = (offeredWrite wl send dev data off id).take (k + 1) ∧ r.w.trace.length = k + 1 := by
+  have hbad : ¬ ExactAck x := by
+    intro h; unfold ExactAck at h; rw [hack] at h; injection h with h; exact hne h
+  have key := write_stops_at_first_bad_answer wl h1 send dev data off id k x hk hbefore hbad
+  refine ⟨?_, key.2.2.1, key.2.2.2⟩
+  rw [key.1]; simp [stopOutcome, hack]
+
+/-- the converse: when every offered exchange is an exact acknowledgement the write performs all of them and
+returns normally (so the error of the two theorems above is raised ONLY on a deviation) -/
+theorem write_all_acked_returns {σ} (wl : Nat) (h1 : 1 ≤ wl) (send : Send σ) (dev : σ)
+    (data : List Nat) (off id : Nat)
+    (hall : ∀ y ∈ offeredWrite wl send dev data off id, ExactAck y) :
+    let r := writeFruData (withWriteLen wl) send ⟨dev, []⟩ data off id
+    r.out = .ok () ∧ r.w.trace = offeredWrite wl send dev data off id := by
+  have hn : wl ≠ 0 := by omega
+  have key := writeChunks_all_acked send id (chunks wl data) ⟨dev, []⟩ off hall
+  simp only [writeFruData, withWriteLen, hn, if_false]
+  exact ⟨key.1, by simpa [offeredWrite] using key.2⟩
+
+/-- the two deviating devices of the non-vacuity examples: 64 bytes in 16-byte chunks; acknowledgements
+15, 17, 16, 16 (short first, adjacent) and 17, 16, 16, 15 (long first, far apart) - both sum to 64 -/
+def cancelDev (plan : List (Nat × Fault)) : FaultyDev :=
+  ⟨⟨[(3, List.replicate 80 0)], 32, 0xCA, false, 255⟩, 0, plan⟩
+
+def acksOf (tr : List Xchg) : List Nat := tr.map fun x => x.rsp.getD 1 0
+
+/-- non-vacuity of `write_raises_at_first_count_mismatch` with TWO deviations that cancel: the offered
+acknowledgements are 15, 17, 16, 16 (sum 64 = bytes given), `k = 0`; the write raises after ONE request. -/
+example : acksOf (offeredWrite 16 respondF (cancelDev [(0, .ack 15), (1, .ack 17)]) (List.replicate 64 9) 5 3)
+      = [15, 17, 16, 16] ∧
+    (acksOf (offeredWrite 16 respondF (cancelDev [(0, .ack 15), (1, .ack 17)]) (List.replicate 64 9) 5 3)).sum = 64 ∧
+    (writeFruData (withWriteLen 16) respondF ⟨cancelDev [(0, .ack 15), (1, .ack 17)], []⟩ (List.replicate 64 9) 5 3).out
+      = .pyError "Exception" ∧
+    (writeFruData (withWriteLen 16) respondF ⟨cancelDev [(0, .ack 15), (1, .ack 17)], []⟩ (List.replicate 64 9) 5 3).w.trace.length
+      = 1 := by decide
+
+/-- long first, far apart (17, 16, 16, 15): raised at request 0 as well; with the deviations at requests 1 and 3
+(16, 13, 16, 19) the write raises after two requests -/
+example : acksOf (offeredWrite 16 respondF (cancelDev [(0, .ack 17), (3, .ack 15)]) (List.replicate 64 9) 5 3)
+      = [17, 16, 16, 15] ∧
+    (writeFruData (withWriteLen 16) respondF ⟨cancelDev [(0, .ack 17), (3, .ack 15)], []⟩ (List.replicate 64 9) 5 3).out
+      = .pyError "Exception" ∧
+    (writeFruData (withWriteLen 16) respondF ⟨cancelDev [(0, .ack 17), (3, .ack 15)], []⟩ (List.replicate 64 9) 5 3).w.trace.length
+      = 1 ∧
+    acksOf (offeredWrite 16 respondF (cancelDev [(1, .ack 13), (3, .ack 19)]) (List.replicate 64 9) 5 3)
+      = [16, 13, 16, 19] ∧
+    (writeFruData (withWriteLen 16) respondF ⟨cancelDev [(1, .ack 13), (3, .ack 19)], []⟩ (List.replicate 64 9) 5 3).out
+      = .pyError "Exception" ∧
+    (writeFruData (withWriteLen 16) respondF ⟨cancelDev [(1, .ack 13), (3, .ack 19)], []⟩ (List.replicate 64 9) 5 3).w.trace.length
+      = 2 := by decide
+
+/-- the hypotheses of the theorem instantiated on the first device (k = 0, n = 15, sent 16) -/
+example : ∃ x, (offeredWrite 16 respondF (cancelDev [(0, .ack 15), (1, .ack 17)]) (List.replicate 64 9) 5 3)[0]? = some x ∧
+    decodeWriteRsp x.rsp = .ok 15 ∧ x.req.payload.length - 3 = 16 := ⟨_, rfl, by decide, by decide⟩
 
 /-- The device the history runs use (faults at chosen request indices) is the reference device as long as
 its fault plan is empty, so everything proved about `respond` holds for the steps without faults; the
